@@ -13,7 +13,7 @@ from vlib import core, opskit
 from vlib import translate
 
 RULE = ("as C10 (random populations x operator sequences of length 1-12 x forced completion orders); every observed population / evaluation result is snapshotted at "
-        "observation time and compared at the end of the sequence, the argument of every application also right after the call; plus mutation operators applied directly to freshly speciated populations with probabilities at which nobody is drawn; plus a solver-level family (scripted-operator solvers, tiny real EVQE solvers, base-class solvers around the package's speciation/selection): two or three solves on ONE solver object, one on a fresh solver, garbage collection — the first result is snapshotted when returned and compared after each; distinct = distinct spec; non-trivial = at least two executed operators one of which is a speciation (solver family: at least two completed solves)")
+        "observation time and compared at the end of the sequence, the argument of every application also right after the call; plus mutation operators applied directly to freshly speciated populations with probabilities at which nobody is drawn; plus independent pipelines in one process (every finished sequence is looked at again after later sequences with fresh operator instances and fresh populations have run: the three oldest and three most recent after every sequence, all of them at the end; twin sequences on coinciding not-yet-speciated populations); plus a solver-level family (scripted-operator solvers, tiny real EVQE solvers, base-class solvers around the package's speciation/selection): two or three solves on ONE solver object, one on a fresh solver, garbage collection — the first result is snapshotted when returned and compared after each; distinct = distinct spec; non-trivial = at least two executed operators one of which is a speciation (solver family: at least two completed solves)")
 
 
 def oracle(tr, report):
@@ -30,6 +30,7 @@ def run(ctx):
     specs += opskit.all_orders_specs(ctx.rng)[::6]
     specs += opskit.merge_specs(ctx.rng, ctx.n(6, 60))
     specs += opskit.mutation_after_speciation_specs(ctx.rng, ctx.n(30, 300))
+    specs += opskit.twin_pipeline_specs(ctx.rng, ctx.n(15, 150))
     for _ in range(ctx.n(150, 3000)):
         spec = opskit.random_spec(ctx.rng)
         # histories matter: make sure most sequences contain a second speciation after something was recorded
@@ -37,7 +38,7 @@ def run(ctx):
             spec["steps"] = (spec["steps"] + [{"op": "speciation", "thr": ctx.rng.choice([1, 2, 3]), "seed": ctx.rng.randint(0, 10**6)}])[:13]
         specs.append(spec)
     kept = opskit.drive(ctx, "C11", specs, opskit.oracle_c11_step, oracle, "check_heap_case", "heap-model-vs-impl",
-                        nontrivial=lambda spec, tr: len(tr.steps) >= 2 and any(s.spec["op"] == "speciation" for s in tr.steps))
+                        nontrivial=lambda spec, tr: len(tr.steps) >= 2 and any(s.spec["op"] == "speciation" for s in tr.steps), pipelines=True)
     shared = 0
     for spec, tr in kept:
         for kind, s1, s2 in opskit.sharing_report(tr):
@@ -86,6 +87,14 @@ def replay(ctx, payload):
     if translate.is_link_replay(payload) and not payload.get("failing_input"):
         return translate.replay(ctx, payload, "C10")
     spec = payload.get("case") or payload.get("failing_input")
+    if "pipeline_a" in spec:
+        # an independent pipeline B after a finished pipeline A, in one process
+        specs = [spec["pipeline_a"]] + ([spec["pipeline_b"]] if spec.get("pipeline_b") else [])
+        opskit.drive(ctx, "C11_replay", [{k: v for k, v in s_.items() if k != "failing_step"} for s_ in specs], opskit.oracle_c11_step, oracle, "check_heap_case", "heap-model-vs-impl", pipelines=True)
+        for v in ctx.violations:
+            print(f"{v['kind']}: {v['key']}: {v['what']}")
+        print("impl-vs-property:", "FAILS" if any(v["kind"] == "oracle" for v in ctx.violations) else "ok")
+        return
     if "solver_case" in spec:
         solver_family(ctx, [spec["solver_case"]])
         for v in ctx.violations:
